@@ -293,7 +293,9 @@ Run(st, prog) == IF prog = <<>> \/ st.err # "none" THEN st ELSE Run(StepTok(st, 
 \* ------------------------------------------------------------------ the machine (one token per step)
 VARIABLES prog, pc, st, snaps
 vars == <<dev, prog, pc, st, snaps>>
-CONSTANTS DevChoices       \* set of deviation sets to run every program under
+CONSTANTS DevChoices,      \* set of deviation sets to run every program under
+          MixTokens,       \* > 0: the program is extended with instances drawn from MixPool while it is shorter (used
+          MixPool          \*      with `tlc -simulate` for long programs mixing all operator groups); 0: fixed program
 
 Start(p, ctm) == dev \in DevChoices /\ prog = p /\ pc = 1 /\ st = State0(ctm) /\ snaps = <<>>
 
@@ -319,9 +321,13 @@ APath     == IsOp({"m", "l", "c", "v", "y", "h", "re"}) /\ Adv
 APaint    == IsOp({"S", "s", "f", "F", "f*", "B", "B*", "b", "b*", "n"}) /\ Adv
 ADo       == IsOp({"Do"}) /\ Adv
 AUnknown  == pc <= Len(prog) /\ st.err = "none" /\ CurTok.t = "op" /\ NArgs(OpStr(CurTok)) < 0 /\ Adv
-Next == APushOperand \/ AGState \/ ATextObj \/ ATextState \/ ATextPos \/ AShow \/ AColor \/ APath \/ APaint \/ ADo \/ AUnknown
+\* (simulation of long mixed programs) append one more operator instance when the program has been executed
+AExtend == /\ pc > Len(prog) /\ st.err = "none" /\ Len(prog) < MixTokens
+           /\ \E ins \in MixPool : prog' = prog \o ins
+           /\ UNCHANGED <<dev, pc, st, snaps>>
+Next == AExtend \/ APushOperand \/ AGState \/ ATextObj \/ ATextState \/ ATextPos \/ AShow \/ AColor \/ APath \/ APaint \/ ADo \/ AUnknown
 
-Done == pc > Len(prog) \/ st.err # "none"
+Done == (pc > Len(prog) /\ Len(prog) >= MixTokens) \/ st.err # "none"
 
 \* ------------------------------------------------------------------ properties
 \* the matrix the device applies is the interpreter's CTM whenever something is emitted (and always)
